@@ -501,8 +501,8 @@ def check(pid: str, tier: str, base_seed: int, workers: int | None = None) -> in
     for sig, what in sorted(known.items()):
         print(f"KNOWN-FINDING: property={pid} {what} [signature: {sig}; seen {total['known_seen'].get(sig, 0)}x this run]")
     harness_fail = bool(total["harness"]) or pool_failed or not det["in_process_equal"] or not det["fresh_equal"]
-    for h in total["harness"][:5]:
-        print(f"HARNESS: seed={h['seed']} {h['error']}", flush=True)
+    for n, h in enumerate(total["harness"][:3]):
+        print(f"HARNESS: seed={h['seed']} {h['error'][-1500:] if n == 0 else h['error'][-300:]}", flush=True)
     if pool_failed:
         print(f"HARNESS: worker pool failed: {pool_failed}")
     if not det["in_process_equal"] or not det["fresh_equal"]:
